@@ -45,7 +45,7 @@ func precSpelling(r *rand.Rand, prec int) string {
 }
 
 func checkC14(c *Ctx) {
-	c.rule = "(0) 长度 / 字数 / 字符组 of a text variable read again after the number / list handed out was changed in place (自增 / 自减 / 后增 / 前增, through a copy, as an argument, as a literal item): equal to the first read and to the number of characters; (1) text operations through the element API: for texts over ASCII/CJK/astral/combining characters and U+FFFD, NUL, U+FEFF, U+2028, U+FFFF, U+10FFFF, the encoding-length boundaries U+0080 / U+07FF / U+0800, 长度 == 字数 == len(字符组) == number of code points; 取样(i,j) for every pair in [-(n+2), n+2]^2 (all pairs for n<=10, random beyond): inside 1<=i<=j<=n it must equal characters i..j of 字符组 joined, elsewhere any result must be valid UTF-8 (never half a character); every pair is repeated on a shadow text of equally many distinct one-byte characters and must select the same positions with the same outcome kind (counting must not depend on byte lengths); 分隔 then 拼接 with the same separator is the identity; the same laws through Zn programs; (2) formatting ‹template› % ‹list› through Zn programs: templates mixing literal text and the documented placeholders {} {#} {#.N} {#+} {#.N%} {#.NE} (N in 0..40, also written with leading zeros) with doubles from a boundary pool and random; expected text built from Python %-formatting; {} must insert exactly what 显示 prints for a value of any kind (objects, types, methods, exceptions, nested collections); templates that must be errors (count mismatch, numeric directive on a non-number, unbalanced/nested braces, directive not starting with #, # followed by other characters, absurd precision). distinct_nontrivial = distinct (family, text shape / directive sequence, outcome)"
+	c.rule = "(0) 长度 / 字数 / 字符组 of a text variable read again after the number / list handed out was changed in place (自增 / 自减 / 后增 / 前增, through a copy, as an argument, as a literal item): equal to the first read and to the number of characters; (1) text operations through the element API: for texts over ASCII/CJK/astral/combining characters and U+FFFD, NUL, U+FEFF, U+2028, U+FFFF, U+10FFFF, the encoding-length boundaries U+0080 / U+07FF / U+0800, 长度 == 字数 == len(字符组) == number of code points; 取样(i,j) for every pair in [-(n+2), n+2]^2 (all pairs for n<=10, random beyond): inside 1<=i<=j<=n it must equal characters i..j of 字符组 joined, elsewhere any result must be valid UTF-8 (never half a character); every pair is repeated on a shadow text of equally many distinct one-byte characters and must select the same positions with the same outcome kind (counting must not depend on byte lengths); 分隔 then 拼接 with the same separator is the identity; 24 texts x 13 separators (1..4 bytes per character, shorter / as long as / longer than the text, overlapping patterns): the pieces are the stretches between the occurrences; the same laws through Zn programs; (2) formatting ‹template› % ‹list› through Zn programs: templates mixing literal text and the documented placeholders {} {#} {#.N} {#+} {#.N%} {#.NE} (N in 0..40, also written with leading zeros) with doubles from a boundary pool and random; expected text built from Python %-formatting; {} must insert exactly what 显示 prints for a value of any kind (objects, types, methods, exceptions, nested collections); templates that must be errors (count mismatch, numeric directive on a non-number, unbalanced/nested braces, directive not starting with #, # followed by other characters, absurd precision). distinct_nontrivial = distinct (family, text shape / directive sequence, outcome)"
 	c.assumptions = []string{"Python % formatting is the reference for the numeric directives", "{} is exercised with texts, booleans, 空 and small integers only (display spelling of doubles is unspecified)", "percent rendering is judged only where x*100 in double and exact decimal scaling agree"}
 	rng := c.Rand("c14")
 	py, err := startPyOracle(c.Root)
@@ -252,6 +252,44 @@ func checkC14(c *Ctx) {
 		}
 	})
 	// the same laws through programs, plus split/join identity
+	// splitting: the pieces of 分隔 are the stretches between the (leftmost, non-overlapping)
+	// occurrences of the separator - as many as there are occurrences plus one, none of them holding
+	// the separator; texts shorter / as long as / longer than the separator, in characters and in
+	// bytes; separators of 1..4 bytes per character; overlapping patterns
+	{
+		stexts := []string{"", "甲", "甲，", "，", "，乙", "，，", "甲，乙，丙", "a😀b", "😀", "😀😀😀", "甲乙——丙", "——", "aaa", "aaaa", "abab", "é", "aé", "éaé", "a,b", ",", "文", "中文文本", "x\uFEFFy", "一二"}
+		sseps := []string{"，", "😀", "——", "aa", "ab", "é", ",", "文", "文本", "\uFEFF", "一二三", " ", "甲，乙，丙，丁"}
+		sreqs := []Req{}
+		type sm struct{ t, sep string }
+		sms := []sm{}
+		for _, t := range stexts {
+			for _, sp := range sseps {
+				r := execReq("输入文、隔\n令片 = 以文（分隔：隔）\n输出【片，片之长度，以片（拼接：隔）】\n")
+				r.Inputs = map[string]Val{"文": Text(t), "隔": Text(sp)}
+				sreqs = append(sreqs, r)
+				sms = append(sms, sm{t, sp})
+			}
+		}
+		c.runBatches(sreqs, 100, func(i int, req *Req, resp *Resp) {
+			c.Eval()
+			m := sms[i]
+			parts := strings.Split(m.t, m.sep)
+			pv := []Val{}
+			for _, p := range parts {
+				pv = append(pv, Text(p))
+			}
+			want := List(List(pv...), Num(float64(len(parts))), Text(m.t))
+			c.Nontrivial(fmt.Sprintf("split|%d|%d|%d", utf8.RuneCountInString(m.t), len(m.sep), len(parts)))
+			c.Count("split_cases", 1)
+			if resp.Kind != "value" || resp.Val == nil || !Equal(*resp.Val, want) {
+				got := resp.Kind
+				if resp.Val != nil {
+					got = resp.Val.String()
+				}
+				c.Violation(fmt.Sprintf("split:%q/%q", m.t, m.sep), fmt.Sprintf("text %q split by %q: [pieces, count, rejoined] = %s, expected %s", m.t, m.sep, clip(got, 300), clip(want.String(), 300)), map[string]interface{}{"req": req})
+			}
+		})
+	}
 	preqs := []Req{}
 	pmeta := []string{}
 	seps := []string{",", "，", "😀", "ab", " ", "文"}
